@@ -513,12 +513,12 @@ def run(tier, replay):
     # 5c. (thorough) behaviours of the faulty models, simulated by TLC, must be rejected by the property judge
     if thorough:
         def sim(dev):
-            r = run_tlc("Sim_Cache.tla", "Sim_Cache_%s.cfg" % dev, D, workers=1, simulate=60, depth=70, seed_val=vlib.seed(), timeout=900,
+            r = run_tlc("Sim_Cache.tla", "Sim_Cache_%s.cfg" % dev, D, workers=1, simulate=1500, depth=90, seed_val=vlib.seed(), timeout=900,
                         work_id="c16-sim-" + dev)
             recs = []
             n = 0
             for line in io.StringIO(r.out):
-                if line.startswith('"T[') and n < 400:
+                if line.startswith('"T[') and n < 1500:
                     recs += json.loads(json.loads(line)[1:])
                     n += 1
             path = os.path.join(wd, "sim-%s.ndjson" % dev)
